@@ -351,4 +351,27 @@ def c07(tier, seed):
     return S
 
 
-PROPS = {"C01": c01, "C05": c05, "C07": c07, "C06": c06, "C02": c02, "C03": c03, "C04": c04, "C08": c08, "C09": c09, "C10": c10, "C12": c12}
+def c11(tier, seed):
+    """domain separation: (1) the api_id constants are prefix-free; (2) every oracle query of the sign / verify /
+    proof / blind flows carries a DST starting with the calling interface's api_id (assertions inside the flow
+    harnesses, re-registered here); (3) generator creation under the plain, blind and BLIND_-prefixed ids equals the
+    reference and does not depend on the request history (units shared with C10)."""
+    S = [Spec("c11_api_ids_separate", "c10::api_ids_separate()", 120, "none", "A", shape=dict(unit="api_id constants"), replay="alg")]
+    import copy
+    def take(specs, keep, tag):
+        out = []
+        for sp in specs:
+            if keep(sp):
+                sp2 = copy.copy(sp)
+                sp2.name = "c11_" + sp.name
+                out.append(sp2)
+        return out
+    S += take(c01(tier, seed), lambda sp: "_L1_" in sp.name or "_L2_h0" in sp.name, "c01")
+    S += take(c03(tier, seed), lambda sp: "_L1_d1" in sp.name or "_L2_d1" in sp.name, "c03")
+    S += take(c05_specs(tier, seed, [0], "c05"), lambda sp: True, "c05")
+    S += take(bproof_specs(tier, seed, [0], "c05"), lambda sp: "_L1_M1" in sp.name or "_L0_M1" in sp.name, "c05")
+    S += take(c10(tier, seed), lambda sp: "_gens_" in sp.name, "c10")
+    return S
+
+
+PROPS = {"C01": c01, "C05": c05, "C11": c11, "C07": c07, "C06": c06, "C02": c02, "C03": c03, "C04": c04, "C08": c08, "C09": c09, "C10": c10, "C12": c12}
